@@ -587,7 +587,7 @@ class Evaluator:
         hint = getattr(self, "_type_hints", {}).get(base)
         if hint:
             return self.variants_for(hint)
-        if isinstance(base, tuple) and base[0] == "opq" and base[2][0] == "call":
+        if isinstance(base, tuple) and base[0] == "opq" and base[2][0] in ("call", "icall"):
             rt = base[2][3] if len(base[2]) > 3 else None
             if rt:
                 return self.variants_for(self.adt_of_type(rt))
@@ -597,7 +597,7 @@ class Evaluator:
         name = self._variant_name(vs, d)
         hint = getattr(self, "_type_hints", {}).get(base)
         adt = hint
-        if adt is None and isinstance(base, tuple) and base[0] == "opq" and base[2][0] == "call" and len(base[2]) > 3 and base[2][3]:
+        if adt is None and isinstance(base, tuple) and base[0] == "opq" and base[2][0] in ("call", "icall") and len(base[2]) > 3 and base[2][3]:
             adt = self.adt_of_type(base[2][3])
         if not isinstance(name, str):
             return
@@ -626,8 +626,10 @@ class Evaluator:
             if isinstance(f, tuple) and f[0] == "fn":
                 yield from self._call_path(st, f[2] or f[1], f[1], args, t, depth, None)
                 return
-            st.effects.append(("icall", f, tuple(args), self.fresh()))
-            yield ("ret", st, ("opq", self.fresh(), ("icall", f, tuple(args))))
+            args = [self._resolve_refs(st, a) for a in args]
+            v = ("opq", self.fresh(), ("icall", f, tuple(args), t.get("dty")))
+            st.effects.append(("icall", f, tuple(args), v[1]))
+            yield ("ret", st, v)
             return
         res = (callee.get("res") or {}).get("path")
         if callee.get("via_from"):
@@ -654,7 +656,23 @@ class Evaluator:
             if path == key or decl_path == key or path.endswith(key) or decl_path.endswith(key):
                 yield from model(self, st, args, depth, t)
                 return
+        if decl_path == "std::cmp::PartialEq::ne" and callee is not None and path == decl_path:
+            # the provided `ne` is `!eq`: use the type's own (derived or hand-written) eq when it is crate-local
+            selfty = (callee.get("args") or [""])[0]
+            eqfn = self.fns.get("<%s as std::cmp::PartialEq>::eq" % selfty)
+            if eqfn is not None and self.inline(eqfn["path"]) and depth < self.max_depth:
+                for kind, st2, v in self._exec_fn(st, eqfn, args, depth + 1):
+                    if kind == "ret":
+                        v = strip(v)
+                        v = ("const", 0 if v[1] else 1) if v[0] == "const" else ("opq", self.fresh(), ("not", v))
+                    yield (kind, st2, v)
+                return
         fn = self.fns.get(path) or self.fns.get(decl_path)
+        if fn is None and callee is not None and callee.get("trait") and not callee.get("res") and args:
+            # a trait method on a type parameter of an inlined generic function: when the receiver is the unit value the impl for `()` is meant
+            a0 = strip(args[0])
+            if a0 == ("unit",) or (isinstance(a0, tuple) and a0[0] == "agg" and a0[1] == "tuple" and not a0[4]):
+                fn = self.fns.get("<() as %s>::%s" % (callee["trait"], callee.get("name")))
         if fn is not None and self.inline(fn["path"]) and depth < self.max_depth:
             yield from self._exec_fn(st, fn, args, depth + 1)
             return
@@ -700,8 +718,10 @@ class Evaluator:
                 return
             yield from self._call_path(st, path, f[1], list(cargs), t, depth, None)
             return
-        st.effects.append(("icall", f, tuple(cargs), self.fresh()))
-        yield ("ret", st, ("opq", self.fresh(), ("icall", f, tuple(cargs))))
+        cargs = [self._resolve_refs(st, a) for a in cargs]
+        v = ("opq", self.fresh(), ("icall", f, tuple(cargs), None))
+        st.effects.append(("icall", f, tuple(cargs), v[1]))
+        yield ("ret", st, v)
 
     def _ctor(self, path):
         """`std::option::Option::Some` / `cglue::result::CResult::Ok` -> (adt, variant) when the path names an enum variant constructor."""
@@ -779,6 +799,30 @@ def m_option_and_then(ev, st, args, depth, t):
             yield ("ret", st2, _opt("None"))
         else:
             yield from ev.apply(st2, args[1], pay, depth, t)
+
+
+def m_option_filter(ev, st, args, depth, t):
+    for st2, n, pay in _as_variant(ev, st, args[0], OPT):
+        if n == "None":
+            yield ("ret", st2, _opt("None"))
+            continue
+        # the predicate takes a reference to the payload
+        cell = ("ext", ("filter-arg", ev.fresh()))
+        ev._write(st2, cell, (), pay[0])
+        for kind, st3, v in ev.apply(st2, args[1], [mkref(cell, ())], depth, t):
+            if kind != "ret":
+                yield (kind, st3, v)
+                continue
+            v = strip(v)
+            if v[0] == "const":
+                yield ("ret", st3, _opt("Some", pay[0]) if v[1] else _opt("None"))
+                continue
+            sa = st3.copy()
+            if ev.add_cond(sa, v, "eq", 1, True):
+                yield ("ret", sa, _opt("Some", pay[0]))
+            sb = st3.copy()
+            if ev.add_cond(sb, v, "eq", 0, True):
+                yield ("ret", sb, _opt("None"))
 
 
 def m_option_unwrap_or(ev, st, args, depth, t):
@@ -1019,6 +1063,7 @@ MODELS = {
     "std::option::Option::<T>::map_or_else": m_option_map_or_else,
     "std::option::Option::<T>::and_then": m_option_and_then,
     "std::option::Option::<T>::unwrap_or": m_option_unwrap_or,
+    "std::option::Option::<T>::filter": m_option_filter,
     "std::option::Option::<T>::unwrap_or_else": m_option_unwrap_or_else,
     "std::option::Option::<T>::unwrap": m_option_unwrap,
     "std::option::Option::<T>::expect": m_option_unwrap,
